@@ -155,7 +155,8 @@ def run(ctx):
             for i_ in range(B):
                 D[i_][j0] = col[i_]
             obs[j0] = Fr(1, 2); ctx.count("npcdist-round-trip-hazard")
-        Df = np.array([[float(v) for v in r_] for r_ in D]); sz = np.array(size, dtype=float)
+        szdt = ctx.rng.choice([float, float, np.int64, np.int32, np.int16, np.int8, np.uint8, np.uint16]); ctx.count("size-dtype-" + np.dtype(szdt).name)
+        Df = np.array([[float(v) for v in r_] for r_ in D]); sz = np.array(size, dtype=szdt)
         if use_p:
             r = guarded(irr.simulate_npc_dist, Df, sz, None, np.array([float(v) for v in pv]), plus1)
         else:
@@ -173,7 +174,7 @@ def run(ctx):
         if abs(res["obs_npc"] - stat) > 1e-9 or res["num_perm"] != B or not (0 <= res["pvalue"] <= 1):
             det.update({"issue": "obs_npc is not the documented weighted sum of the per-stratum p-values", "returned": {k: float(v) for k, v in res.items()}, "expected_obs_npc": stat})
             ctx.violation("oracle", det, site="simulate_npc_dist"); continue
-        wts = (sz ** (-1 / 2)).tolist()
+        wts = (np.array(size, dtype=float) ** (-1 / 2)).tolist()
         ops.append(f"npcdist|{int(plus1)}|{rats(wts)}|{'-' if use_p else rats(obs)}|{rats(pv) if use_p else '-'}|{rows(D)}")
         meta.append(("npcdist", det, res))
     r = guarded(irr.simulate_npc_dist, np.zeros((3, 2)), np.array([1.0, 2.0]))
